@@ -164,24 +164,24 @@ def run(facts, res):
         if not digs:
             return False
         for d in digs:
-            if not (contains_call(d[2][0], "to_string") and any(y[0] == "param" and y[2] == parent_param for y in walk(d[2][0]))):
+            if not (contains_call(d[2][0], "to_string") and any(y[0] == "param" and y[1] == parent_param for y in walk(d[2][0]))):
                 return False
         # nothing but the parent and constants feeds the tail
-        ps = {y[2] for y in walk(t) if y[0] == "param"}
+        ps = {y[1] for y in walk(t) if y[0] == "param"}
         return ps <= {parent_param}
 
     nb = facts.body("revision::Revision::new")
     if nb is not None:
         f, bi = ctor_fields(nb)
-        ok_i = f is not None and peel(f["index"])[0] == "param" and peel(f["index"])[2] == "index"
-        ok_d = f is not None and any(y[0] == "param" and y[2] == "digest" for y in walk(f["digest"])) and not contains_call(f["digest"], "digest_string")
+        ok_i = f is not None and peel(f["index"])[0] == "param" and peel(f["index"])[1] == 1
+        ok_d = f is not None and any(y[0] == "param" and y[1] == 2 for y in walk(f["digest"])) and not contains_call(f["digest"], "digest_string")
         ok_t = False
         if f is not None:
             tl = f["tail"]
             alts = tl[3][1] if (tl[0] == "var" and tl[3][0] == "phi") else (tl[1] if tl[0] == "phi" else [tl])
             somes = [a for a in alts if a[0] == "agg" and a[2] == "Some"]
             nones = [a for a in alts if a[0] == "agg" and a[2] == "None"]
-            ok_t = len(somes) == 1 and len(nones) == 1 and tail_ok(somes[0], "parent")
+            ok_t = len(somes) == 1 and len(nones) == 1 and tail_ok(somes[0], 3)
             # None iff no parent: the Some assignment is under `parent is Some`
             du = du_of(nb)
             some_under = none_under = False
@@ -191,7 +191,7 @@ def run(facts, res):
                 tt = du.rvalue_term(d.rv, 4)
                 ls = lits_of(nb, d.block, facts)
                 for l in ls:
-                    if l.kind == "variant" and peel(l.term)[0] == "param" and peel(l.term)[2] == "parent":
+                    if l.kind == "variant" and peel(l.term)[0] == "param" and peel(l.term)[1] == 3:
                         if tt[0] == "agg" and tt[2] == "Some" and l.variants == {"Some"}:
                             some_under = True
                         if tt[0] == "agg" and tt[2] == "None" and l.variants == {"None"}:
@@ -205,9 +205,9 @@ def run(facts, res):
     ub = facts.body("revision::Revision::new_updated")
     if ub is not None:
         f, bi = ctor_fields(ub)
-        ok_i = f is not None and _is_parent_index_plus_1(f["index"], "parent")
-        ok_d = f is not None and any(y[0] == "param" and y[2] == "digest" for y in walk(f["digest"]))
-        ok_t = f is not None and f["tail"][0] == "agg" and f["tail"][2] == "Some" and tail_ok(f["tail"], "parent")
+        ok_i = f is not None and _is_parent_index_plus_1(f["index"], 2)
+        ok_d = f is not None and any(y[0] == "param" and y[1] == 1 for y in walk(f["digest"]))
+        ok_t = f is not None and f["tail"][0] == "agg" and f["tail"][2] == "Some" and tail_ok(f["tail"], 2)
         res.instance("P2", "Revision::new_updated: index=parent.index+1 %s, digest=arg %s, tail=Some(H(parent.to_string())[..7]) %s" % (ok_i, ok_d, ok_t), ub.loc())
         if not (ok_i and ok_d and ok_t):
             res.violation("P2", "Revision::new_updated|field-provenance", "Revision::new_updated: index = parent.index + 1: %s, digest from argument: %s, tail from parent: %s" % (ok_i, ok_d, ok_t), ub.loc())
@@ -222,9 +222,9 @@ def run(facts, res):
             continue
         t = peel(du_of(b).local_term(0, 20))
         want = facts.const_str("constants::" + cn)
-        ok = t[0] == "call" and t[1] == "revision::Revision::new" and _is_parent_index_plus_1(t[2][0], "parent") and \
+        ok = t[0] == "call" and t[1] == "revision::Revision::new" and _is_parent_index_plus_1(t[2][0], 1) and \
             [x[2] for x in walk(t[2][1]) if x[0] == "const" and x[1] == "str"] == [want] and \
-            t[2][2][0] == "agg" and t[2][2][2] == "Some" and any(y[0] == "param" and y[2] == "parent" for y in walk(t[2][2]))
+            t[2][2][0] == "agg" and t[2][2][2] == "Some" and any(y[0] == "param" and y[1] == 1 for y in walk(t[2][2]))
         seen_consts[fn] = want
         res.instance("P2", "Revision::%s = new(parent.index + 1, %r, Some(parent)): %s" % (fn, want, ok), b.loc())
         if not ok:
@@ -330,7 +330,7 @@ def _is_parent_index_plus_1(t, parent):
             a, b = x[2], x[3]
             for p, q in ((a, b), (b, a)):
                 if q[0] == "const" and q[2] == 1:
-                    if any(y[0] == "field" and y[2] == "index" for y in walk(p)) and any(y[0] == "param" and y[2] == parent for y in walk(p)):
+                    if any(y[0] == "field" and y[2] == "index" for y in walk(p)) and any(y[0] == "param" and y[1] == parent for y in walk(p)):
                         return True
         if x[0] == "call" and callee_name(x) in ("checked_add", "saturating_add", "wrapping_add") and len(x[2]) == 2:
             if x[2][1][0] == "const" and x[2][1][2] == 1 and any(y[0] == "field" and y[2] == "index" for y in walk(x[2][0])):
